@@ -1556,3 +1556,237 @@ Proof.
     split_and!; [apply Listed.U_wf|apply Listed.X_wf; by right|apply Listed.n_inv|by vm_compute
                 |apply Listed.listed_sync_inst].
 Qed.
+
+(** * The batch-acceptance rule of workFn (parallel_sync.go:66-70, 84-95)
+
+    A request that is accepted ([RNext]) handed the manager exactly the blocks of the header
+    chunk it was asked for.  Hypotheses actually needed: [WFX] (valid terms are canonical, the
+    commitment binds the state); for the instant path, that the base is a fully valid block at
+    or above the require height (what [instant_base] needs; [do_requests_safe] maintains it) and
+    that the chunk passed SendHeaders' checks ([headers_ok]: parent-linked from the base,
+    canonical ids).  [WF], [GRoot] and [0 < reqh P] are not needed. *)
+Section Batch.
+  Context (U : universe) (X : xuniverse) (P : params) (HX : WFX U X P).
+
+  Lemma eqb_ids_eq (a : list N) : ∀ b, eqb_ids a b = true → a = b.
+  Proof.
+    unfold eqb_ids. induction a as [|x a IH]; intros [|y b]; cbn; try done.
+    intros [Hl [Hxy Hf]%andb_true_iff]%andb_true_iff. apply N.eqb_eq in Hxy. subst y.
+    f_equal. apply IH. by rewrite Hl, Hf.
+  Qed.
+
+  (** parent-linked from [base], front to back *)
+  Fixpoint linked (base : N) (l : list N) : Prop :=
+    match l with
+    | [] => True
+    | x :: r => par U x = base ∧ linked x r
+    end.
+
+  Lemma linked_snoc l : ∀ base x,
+    linked base (l ++ [x]) ↔ linked base l ∧ par U x = List.last l base.
+  Proof.
+    induction l as [|y l IH]; intros base x; cbn [app linked].
+    - cbn. tauto.
+    - rewrite IH. rewrite (last_cons l y base). tauto.
+  Qed.
+
+  (** two parent-linked lists of the same length with the same last element are equal *)
+  Lemma linked_eq l1 : ∀ l2 b1 b2,
+    linked b1 l1 → linked b2 l2 → length l1 = length l2 →
+    (l1 ≠ [] → List.last l1 0 = List.last l2 0) → l1 = l2.
+  Proof.
+    induction l1 as [|x l1 IH] using rev_ind; intros l2 b1 b2 H1 H2 Hlen Hlast.
+    { destruct l2; [done|cbn in Hlen; lia]. }
+    destruct l2 as [|y l2 _] using rev_ind.
+    { rewrite app_length in Hlen. cbn in Hlen. lia. }
+    rewrite !app_length in Hlen. cbn in Hlen.
+    rewrite !last_last in Hlast. specialize (Hlast ltac:(by destruct l1)). subst y.
+    apply linked_snoc in H1 as [H1 Hp1]. apply linked_snoc in H2 as [H2 Hp2].
+    f_equal. apply (IH l2 b1 b2); [done|done|lia|].
+    intros Hne. assert (l2 ≠ []) as Hne2 by (destruct l2; [destruct l1; [done|cbn in Hlen; lia]|done]).
+    rewrite (sy_last_default l1 0 b1 Hne), (sy_last_default l2 0 b2 Hne2). congruence.
+  Qed.
+
+  Lemma headers_ok_linked hs : ∀ a, headers_ok U X a hs = true →
+    linked a hs ∧ ∀ h, h ∈ hs → hid (xget X h) = h.
+  Proof.
+    induction hs as [|h hs IH]; intros a H.
+    { split; [done|]. by intros h ?%elem_of_nil. }
+    cbn [headers_ok] in H.
+    apply andb_true_iff in H as [[[[_ Hp]%andb_true_iff _]%andb_true_iff Hid]%andb_true_iff H].
+    apply N.eqb_eq in Hp, Hid. destruct (IH h H) as [Hl Hall]. split; [done|].
+    intros h' [->|?]%elem_of_cons; auto.
+  Qed.
+
+  Lemma vblocks_linked j bs : ∀ base, vblocks U (StOf base) j bs = true →
+    linked base bs ∧ ∀ x, x ∈ bs → hid (xget X x) = x.
+  Proof.
+    induction bs as [|b bs IH]; intros base H.
+    { split; [done|]. by intros x ?%elem_of_nil. }
+    cbn [vblocks after] in H. apply andb_true_iff in H as [Hv H].
+    unfold vblock, hdr_okb, body_okb in Hv.
+    apply andb_true_iff in Hv as [[Hp Hh]%andb_true_iff Hb]. apply N.eqb_eq in Hp.
+    destruct (U !! b) as [B|] eqn:HB; [|done].
+    destruct (IH b H) as [Hl Hall]. split; [done|].
+    intros x [->|?]%elem_of_cons; [|auto]. by eapply (wx_canon U X P HX).
+  Qed.
+
+  Lemma map_hid_id l : (∀ x, x ∈ l → hid (xget X x) = x) → map (λ t, hid (xget X t)) l = l.
+  Proof.
+    induction l as [|x l IH]; intros H; cbn [map]; [done|].
+    rewrite H, IH; [done| |]; [intros y Hy|]; try apply H; apply elem_of_cons; auto.
+  Qed.
+
+  Lemma accepted_batch m base bh hj r m' acts :
+    headers_ok U X base hj = true →
+    (reqh P ≤ bh → ∃ B, U !! base = Some B ∧ hdr_ok B = true ∧ body_ok B = true ∧
+                        reqh P ≤ height B) →
+    do_request U X P true m base bh hj r = (m', RNext, acts) →
+    ∃ v bs, acts = [Submit v bs Ok] ∧ map (λ t, hid (xget X t)) bs = hj ∧ (v = true → bs = hj).
+  Proof.
+    intros Hhs Hbase. destruct r as [|bs|cp st j bs]; cbn [do_request].
+    - done.
+    - destruct (reqh P <=? bh); [done|].
+      destruct (eqb_ids (map (λ t, hid (xget X t)) bs) hj) eqn:Hid; cbn [negb]; [|done].
+      apply eqb_ids_eq in Hid.
+      destruct (add_terms U X m bs) as [[m1 out] nt].
+      destruct out; intros [= <- <-]. exists false, bs. done.
+    - destruct (N.leb_spec (reqh P) bh) as [Hle|]; cbn [negb]; [|done].
+      destruct (checkpoint_ok U X true base cp st j) eqn:Hck; cbn [negb]; [|done].
+      destruct (Nat.eqb_spec (length bs) (length hj)) as [Hlen|]; cbn [negb]; [|done].
+      destruct (N.eqb_spec (hid (xget X (List.last bs 0))) (List.last hj 0)) as [Hlast|];
+        cbn [negb]; [|done].
+      destruct (vblocks U (derive U X st cp) j bs) eqn:Hv; cbn [negb]; [|done].
+      destruct (instant_base U X P HX base cp st j (Hbase Hle) Hck) as [_ Hd].
+      rewrite Hd in Hv.
+      destruct (vblocks_linked j bs base Hv) as [Hlb Hcb].
+      destruct (headers_ok_linked hj base Hhs) as [Hlh Hch].
+      assert (bs = hj) as ->.
+      { apply (linked_eq bs hj base base Hlb Hlh Hlen). intros Hne.
+        rewrite <- Hlast. symmetry. apply Hcb. by apply sy_last_in. }
+      destruct (add_validated U m hj) as [[m1 out] nt].
+      destruct out; intros [= <- <-]. exists true, hj. split_and!; [done| |done].
+      by apply map_hid_id.
+  Qed.
+
+  (** the acceptance rule with the last-id comparison (parallel_sync.go:68) replaced by "the
+      first block attaches to the base" *)
+  Definition do_request_attach (fixcp : bool) (m : mgr) (base bh : N) (hj : list N) (r : cresp)
+    : mgr * req_result * list action :=
+    match r with
+    | CInstant cp st junk_ok bs =>
+        if negb (reqh P <=? bh) then (m, RFail, [])
+        else if negb (checkpoint_ok U X fixcp base cp st junk_ok) then (m, RFail, [])
+        else if negb (Nat.eqb (length bs) (length hj)) then (m, RFail, [])
+        else if negb (match bs with [] => true | b :: _ => par U b =? base end) then (m, RFail, [])
+        else if negb (vblocks U (derive U X st cp) junk_ok bs) then (m, RBan, [])
+        else let '(m', out, _) := add_validated U m bs in
+             match out with
+             | Ok => (m', RNext, [Submit true bs Ok])
+             | o => (m', RBan, [Submit true bs o])
+             end
+    | other => do_request U X P fixcp m base bh hj other
+    end.
+End Batch.
+
+Theorem accepted_batch_is_header_chunk :
+  ∀ U X P m base bh hj r m' acts,
+    WFX U X P →
+    headers_ok U X base hj = true →
+    (reqh P ≤ bh → ∃ B, U !! base = Some B ∧ hdr_ok B = true ∧ body_ok B = true ∧
+                        reqh P ≤ height B) →
+    do_request U X P true m base bh hj r = (m', RNext, acts) →
+    ∃ v bs, acts = [Submit v bs Ok] ∧ map (λ t, hid (xget X t)) bs = hj ∧ (v = true → bs = hj).
+Proof. intros U X P m base bh hj r m' acts HX. by apply accepted_batch. Qed.
+
+Module Attach.
+  (** genesis 0; 1 a valid v2 block; two valid forks 2-3 and 4-5 on block 1 *)
+  Definition U : universe := list_to_map [
+    (0, Blk 0 0 true false true 1 1);
+    (1, Blk 0 1 true false true 2 2);
+    (2, Blk 1 2 true false true 4 2);
+    (3, Blk 2 3 true false true 6 2);
+    (4, Blk 1 2 true false true 4 2);
+    (5, Blk 4 3 true false true 6 2) ].
+  Definition X : xuniverse := list_to_map [
+    (0, XB true true false 0 None);
+    (1, XB true true true 1 (Some (StOf 0)));
+    (2, XB true true true 2 (Some (StOf 1)));
+    (3, XB true true true 3 (Some (StOf 2)));
+    (4, XB true true true 4 (Some (StOf 1)));
+    (5, XB true true true 5 (Some (StOf 4))) ].
+  Definition P : params := Params 10000 100 1.
+  Definition Plow : params := Params 10000 100 100.
+  Definition m : mgr := (add_blocks U init [1]).1.1.
+
+  Lemma U_wf : WF U.
+  Proof. apply wfb_sound. vm_compute. reflexivity. Qed.
+
+  Lemma X_wf P' : P' = P ∨ P' = Plow → WFX U X P'.
+  Proof.
+    intros HP. split.
+    - intros t B H. unfold U in H. in_list_map H; vm_compute; congruence.
+    - intros t B H. unfold U in H. in_list_map H; vm_compute; congruence.
+    - intros t t' s s'. unfold xget.
+      destruct (X !! t) as [x|] eqn:E; [|done]. destruct (X !! t') as [x'|] eqn:E'; [|done].
+      unfold X in E, E'. in_list_map E; in_list_map E'; vm_compute; congruence.
+    - intros t B H. unfold U in H.
+      destruct HP as [-> | ->]; in_list_map H; vm_compute; try congruence; by intros _ [].
+    - intros t B H. unfold U in H. in_list_map H; vm_compute; try congruence; by intros _.
+  Qed.
+
+  Lemma m_inv : MInv U m ∧ all_body m.
+  Proof.
+    split.
+    - apply (mstep_inv U U_wf init (AddBlocks [1]) (MInv_init U U_wf) I).
+    - apply (all_body_add_blocks U init [1]), all_body_init.
+  Qed.
+End Attach.
+
+(** the hypotheses of [accepted_batch_is_header_chunk] are met in both paths *)
+Theorem accepted_batch_nonvacuous :
+  (∃ U X P m base bh hj r m' acts,
+     WFX U X P ∧ headers_ok U X base hj = true ∧
+     (reqh P ≤ bh → ∃ B, U !! base = Some B ∧ hdr_ok B = true ∧ body_ok B = true ∧
+                         reqh P ≤ height B) ∧
+     reqh P ≤ bh ∧ (1 < length hj)%nat ∧
+     do_request U X P true m base bh hj r = (m', RNext, acts)) ∧
+  (∃ U X P m base bh hj r m' acts,
+     WFX U X P ∧ headers_ok U X base hj = true ∧
+     (reqh P ≤ bh → ∃ B, U !! base = Some B ∧ hdr_ok B = true ∧ body_ok B = true ∧
+                         reqh P ≤ height B) ∧
+     bh < reqh P ∧ (1 < length hj)%nat ∧
+     do_request U X P true m base bh hj r = (m', RNext, acts)).
+Proof.
+  split.
+  - exists Attach.U, Attach.X, Attach.P, Attach.m, 1, 1, [2; 3], (CInstant 1 (StOf 0) false [2; 3]).
+    eexists _, _. split_and!; [apply Attach.X_wf; by left|by vm_compute| |by vm_compute|cbn; lia
+                              |vm_compute; reflexivity].
+    intros _. exists (Blk 0 1 true false true 2 2). by vm_compute.
+  - exists Attach.U, Attach.X, Attach.Plow, Attach.m, 1, 1, [2; 3], (CBlocks [2; 3]).
+    eexists _, _. split_and!; [apply Attach.X_wf; by right|by vm_compute| |by vm_compute|cbn; lia
+                              |vm_compute; reflexivity].
+    intros H. exfalso. revert H. by vm_compute.
+Qed.
+
+(** without the last-id comparison a valid sibling chain is accepted for a header chunk it
+    does not equal (the real rule refuses the same answer) *)
+Theorem attach_only_rule_refuted :
+  ∃ U X P m base bh hj r m' bs,
+    WF U ∧ WFX U X P ∧ GRoot U ∧ 0 < reqh P ∧ MInv U m ∧ all_body m ∧
+    headers_ok U X base hj = true ∧
+    (∃ B, U !! base = Some B ∧ hdr_ok B = true ∧ body_ok B = true ∧ reqh P ≤ height B) ∧
+    reqh P ≤ bh ∧
+    do_request_attach U X P true m base bh hj r = (m', RNext, [Submit true bs Ok]) ∧
+    validated_pre U bs ∧
+    map (λ t, hid (xget X t)) bs ≠ hj ∧
+    do_request U X P true m base bh hj r = (m, RFail, []).
+Proof.
+  exists Attach.U, Attach.X, Attach.P, Attach.m, 1, 1, [2; 3], (CInstant 1 (StOf 0) false [4; 5]).
+  eexists _, [4; 5].
+  split_and!; [apply Attach.U_wf|apply Attach.X_wf; by left|by vm_compute|done
+              |apply Attach.m_inv|apply Attach.m_inv|by vm_compute| |by vm_compute
+              |vm_compute; reflexivity| |by vm_compute|vm_compute; reflexivity].
+  - exists (Blk 0 1 true false true 2 2). by vm_compute.
+  - vm_compute. split_and!; eauto 10.
+Qed.
